@@ -36,6 +36,8 @@ RULE = ('case = one of three machines. tee: format x drawn arguments '
         'iterators. Non-trivial: the to* reference did not raise (tee) and '
         'the table has at least one data row. Distinct: by digest of the '
         'whole case.')
+STATES = ('tee: format x history x encoding; timing: kind x batchsize '
+          'class x clock script kinds; cache: view x n x schedule shape')
 COMPONENTS = {
     'real': ['petl tee*/to* writers, TextIOWrapper/codecs, csv, pickle',
              'petl progress/log_progress/clock', 'petl cache/wrap'],
@@ -425,9 +427,17 @@ def run_case(case):
                        sig={'machine': m, 'view': case['view'],
                             'vclass': v.vclass.replace('fresh-pass-', '')},
                        digest=log.hexdigest())
+    if m == 'tee':
+        st = 'tee:%s:%s:%s' % (case['fmt'], case['history'],
+                               case['args'].get('encoding'))
+    elif m == 'timing':
+        st = 'timing:%s:%s:%s' % (case['kind'], case['batchsize'], ''.join(
+            sorted(set(k[0][0] for k in case['script']))))
+    else:
+        st = 'cache:%s:%r:%s' % (case['view'], case['n'], case['shape'])
     return outcome('ok', digest=log.hexdigest(), probes=probes, steps=steps,
                    nontrivial=nontrivial, sim_seconds=sim_seconds,
-                   extra={'group': group})
+                   states=[st], extra={'group': group})
 
 
 def warmup():
